@@ -55,6 +55,13 @@ pub fn c16_build(raw: &Raw, _tier: Tier, _sched: bool) -> Scenario {
     let s = b.store("c16", CAPS[pick(knob(raw, 0), CAPS.len())], Pol::Block, CTORS[pick(knob(raw, 1), 3)].clone());
     let r0 = b.reducer(s);
     let alphabet = 2 + (knob(raw, 2) % 4) as u8;
+    // a plain subscriber registered first: what *it* is told is the notification stream, whether
+    // or not the selector subscriptions are told too
+    let witness = b.sub(SubKind::Direct);
+    b.s.prelude.push(Op::Subscribe { store: s, sub: witness });
+    // a third of the cases: a middleware that vetoes some actions in before_reduce (a vetoed
+    // action is still notified, with the unchanged state)
+    let veto_mw = if knob(raw, 11) % 3 == 0 { Some(b.middleware(s)) } else { None };
     let sel = b.sub(SubKind::Selector { fresh: false });
     b.s.prelude.push(Op::Subscribe { store: s, sub: sel });
     let mut sels = vec![sel];
@@ -77,6 +84,11 @@ pub fn c16_build(raw: &Raw, _tier: Tier, _sched: bool) -> Scenario {
             acts.push(a);
             if r.k % 16 == 15 {
                 b.act_mut(a).keep = vec![r0];
+            }
+            if let Some(mw) = veto_mw {
+                if r.k % 16 == 13 || r.k % 16 == 12 {
+                    b.act_mut(a).verdicts.push((mw, Hook::BeforeReduce, Verdict::Done));
+                }
             }
             b.s.threads[th].push(Op::Dispatch { act: a, via: via_of(r) });
             if unsubs && (r.k >> 4) % 16 == 7 {
@@ -142,6 +154,13 @@ pub fn c16_check(scn: &Scenario, h: &History) -> Outcome {
     if scn.stores.len() > 1 {
         return out;
     }
+    // the witness of the single-store generator: a direct subscriber registered in the prelude
+    // before the selector subscriptions and never unsubscribed
+    let witness: Option<SubId> = scn.prelude.first().and_then(|o| match o {
+        Op::Subscribe { sub, .. } if matches!(scn.sub(*sub).kind, SubKind::Direct) => Some(*sub),
+        _ => None,
+    }).filter(|w| !scn.every_op().iter().any(|o| matches!(o, Op::Unsubscribe { sub, .. } if sub == w)));
+    let first_dispatch = d.disps.iter().map(|x| x.inv).min().unwrap_or(usize::MAX);
     for (sub, _) in d.stores[s].subs.iter() {
         if !matches!(d.sub_kind(*sub), SubKind::Selector { .. }) {
             continue;
@@ -157,6 +176,26 @@ pub fn c16_check(scn: &Scenario, h: &History) -> Outcome {
                 }
                 Ev::SelCb { sub: x, val, act } if x == sub => delivered.push((*val, *act)),
                 _ => {}
+            }
+        }
+        // whole-run subscriptions: the stream is what the witness (a plain subscriber registered
+        // just before, never unsubscribed) was told - a notification the selector subscription
+        // never got to see counts too
+        let whole_run = d.stores[s].subs.iter().any(|(x, iv)| x == sub && iv.unsub_inv.is_none() && iv.add_ret.map(|r| r < first_dispatch).unwrap_or(false));
+        if let (true, Some(w)) = (whole_run, witness) {
+            let wstream: Vec<(u64, ActId)> = h.recs.iter().filter_map(|r| match &r.ev {
+                Ev::NotIn { sub: x, act, st } if *x == w => Some((st.sel as u64, *act)),
+                _ => None,
+            }).collect();
+            let wexpect = dedup_expected(&wstream);
+            if delivered != wexpect {
+                out.viol(format!(
+                    "selector subscription {}: the store's notification stream (value,action), as told to a plain subscriber registered alongside, is {:?}; callback received {:?}, expected consecutive-duplicate removal {:?}",
+                    sub, wstream, delivered, wexpect
+                ));
+            }
+            if scn.actions.iter().any(|a| a.verdicts.iter().any(|(_, hk, v)| *hk == Hook::BeforeReduce && *v == Verdict::Done)) {
+                out.class("vetoed-actions-in-the-stream");
             }
         }
         let expect = dedup_expected(&stream);
@@ -246,7 +285,7 @@ pub fn c16_extra(_tier: Tier) -> ExtraResult {
 
 pub static C16: Profile = Profile {
     id: "C16",
-    rule: "(1) enumeration: every sequence of selected values over {0,1,2} of length 0..=8 (9841 sequences) fed straight to SelectorSubscriber::on_notify; (2) proptest: sequences of up to 2x60 (quick) / 2x100 (thorough) actions over alphabets of 2-5 selected values through a running store with 1-2 selector subscriptions and 1-2 producers (Keep actions interspersed; in a third of these a subscription is ended mid-run by a client thread or from inside the first subscription's own callback, so that a notification already in flight still reaches it); in a third of the cases one SelectorSubscriber object is registered on two stores fed concurrently (it must never deliver the value it delivered last). Oracle O-SELECT: delivered (value, action) list = consecutive-duplicate removal of the notification stream. Non-trivial = the stream contains an adjacent repeat AND a later return to an earlier value; distinct by scenario hash (random part) / by sequence (enumeration).",
+    rule: "(1) enumeration: every sequence of selected values over {0,1,2} of length 0..=8 (9841 sequences) fed straight to SelectorSubscriber::on_notify; (2) proptest: sequences of up to 2x60 (quick) / 2x100 (thorough) actions over alphabets of 2-5 selected values through a running store with a plain witness subscriber, 1-2 selector subscriptions and 1-2 producers (Keep actions interspersed, in a third of the cases also actions vetoed in before_reduce, which are still notified; in a third of these a subscription is ended mid-run by a client thread or from inside the first subscription's own callback, so that a notification already in flight still reaches it); in a third of the cases one SelectorSubscriber object is registered on two stores fed concurrently (it must never deliver the value it delivered last). Oracle O-SELECT: delivered (value, action) list = consecutive-duplicate removal of the notification stream. Non-trivial = the stream contains an adjacent repeat AND a later return to an earlier value; distinct by scenario hash (random part) / by sequence (enumeration).",
     raw: c16_raw,
     build: c16_build,
     check: c16_check,
